@@ -8,7 +8,9 @@ RULE = ("generated witnesses: 0..6 states (bit-vector / array with 0..9 recorded
         "a 'wild' stream outside the property's domain (no failed property, missing input values, forbidden name characters, array "
         "inputs, length mismatches: compared model vs implementation only); a text stream: printer output mutated by 1..3 of 17 line/"
         "token mutations (deleted/duplicated/swapped lines, junk tokens, blank/comment/padded lines, CRLF, no final newline, later "
-        "state frames, suffix variants, truncation) read with parse_max in {0,1,2,3,30} and re-printed. distinct = distinct case inputs")
+        "state frames, suffix variants, truncation) read with parse_max in {0,1,2,3,30} and re-printed; counterexamples of patronus' "
+        "own bmc (z3) on btor2 files of the repository; corpus: the five texts of patronus/tests/btor2_witness_tests.rs and 27 "
+        "hand-written boundary texts. distinct = distinct case inputs")
 ASSUMPTIONS = [
     "the Gallina model Model/WitnessIO.v mirrors witness.rs line by line (hand-written; tied by differential execution on the generated cases: printed text byte for byte, read-back witnesses on a canonical dump)",
     "baa's BitVecValue::to_bit_str/from_bit_str are modelled as the identity on bit lists (msb first); bit strings with a sign prefix are outside the model",
@@ -21,21 +23,28 @@ TRUSTED = ["ocaml/driver/c16.ml: conversion of dumped witnesses to the extracted
            "witness of the case is complete in the property's sense and one of them has an array index width above 64"]
 
 
+BMC_QUICK = "chiseltest/const_array_example.btor,chiseltest/maltese_bmc_should_fail_after_the_appropriate_amount_of_cycles_test.btor"
+BMC_ALL = BMC_QUICK + (",chiseltest/maltese_bmc_should_succeed_for_a_limited_amount_of_cycles_test.btor,"
+                       "chiseltest/maltese_bmc_should_work_on_a_circuit_with_a_submodule_test.btor,unittest/dangling.btor2")
+
+
 def streams(tier, seed):
     if tier == "quick":
         return [dict(tag="main", count=6000, seed=seed),
-                dict(tag="text", count=1500, seed=seed + 1, extra={"mode": "text"})]
-    out = []
-    for k in range(8):
-        out.append(dict(tag="main%d" % k, count=40000, seed=seed * 1000 + k))
-    out.append(dict(tag="wild", count=30000, seed=seed + 11, extra={"mode": "wild"}))
-    for k in range(3):
-        out.append(dict(tag="text%d" % k, count=30000, seed=seed * 77 + k, extra={"mode": "text"}))
+                dict(tag="text", count=1500, seed=seed + 1, extra={"mode": "text"}),
+                # counterexamples of patronus' own BMC (z3) on two btor2 files of the repository, single and as a stream of two
+                dict(tag="bmc", count=0, seed=seed, extra={"mode": "bmc", "files": BMC_QUICK})]
+    out = [dict(tag="bmc", count=0, seed=seed, extra={"mode": "bmc", "files": BMC_ALL})]
+    for k in range(6):
+        out.append(dict(tag="main%d" % k, count=7000, seed=seed * 1000 + k))
+    out.append(dict(tag="wild", count=6000, seed=seed + 11, extra={"mode": "wild"}))
+    for k in range(2):
+        out.append(dict(tag="text%d" % k, count=6000, seed=seed * 77 + k, extra={"mode": "text"}))
     return out
 
 
 def search_streams(tier, seed, diffs):
-    return [dict(tag="search%d" % k, count=20000, seed=seed * 7919 + k) for k in range(3)]
+    return [dict(tag="search%d" % k, count=5000, seed=seed * 7919 + k) for k in range(3)]
 
 
 MANIFEST = dict(
